@@ -292,7 +292,7 @@ func bookOracle(c *harness.Check) []string {
 
 func checkC20(c *harness.Check) {
 	mustAnchors(c)
-	c.Rule = "every node WITH ITS HISTORY of push-sequence walks from all seeds (the heuristics read last moves, castled flags, moved pieces, move number) plus every K+X v K placement (quick: white king in the a1-d1-d4 triangle): all evaluations finite without panic; generic material / TUROCHAMP / TUROCHAMP material / BERNSTEIN (factor 20,1,0) equal on the colour-mirrored twin game; FindPlausibleMoves legal with exact metadata and duplicate-free; PlausibleMoveTable{1,3,7} selects <= limit and >= 1; SkipUnderPromotions keeps exactly the non-under-promotions and >= 1; ConsiderableMovesOnly (evaluated post-move like the search) equals the four rules read on the reference model; every entry of both opening books (private map read by reflection) legal in its keyed position and returned by Find. distinct_nontrivial = distinct (seed, selected-plausible-count at limit 7, #considerable, in-check) classes + book entries"
+	c.Rule = "every node WITH ITS HISTORY of push-sequence walks from all seeds (the heuristics read last moves, castled flags, moved pieces, move number) plus every K+X v K placement (quick: white king in the a1-d1-d4 triangle) and the back-rank-check family (boxed king checked by a rook from every square, one own piece on every square: many positions with a single legal reply): all evaluations finite without panic; generic material / TUROCHAMP / TUROCHAMP material / BERNSTEIN (factor 20,1,0) equal on the colour-mirrored twin game; FindPlausibleMoves legal with exact metadata and duplicate-free; PlausibleMoveTable{1,3,7} selects <= limit and >= 1; SkipUnderPromotions keeps exactly the non-under-promotions and >= 1; ConsiderableMovesOnly (evaluated post-move like the search) equals the four rules read on the reference model; every entry of both opening books (private map read by reflection) legal in its keyed position and returned by Find. distinct_nontrivial = distinct (seed, selected-plausible-count at limit 7, #considerable, in-check) classes + book entries"
 	for _, m := range bookOracle(c) {
 		c.Violation("C20/book "+m, m, "C20/book", nil)
 	}
@@ -399,6 +399,17 @@ func checkC20(c *harness.Check) {
 		if cls, msg := c20Oracle(ctx, b, bm, ref.NewGame(n.Ref, 0, 1), nil); msg != "" {
 			c.Violation(cc.sig("C20/"+cls, f), msg+" at "+f, "C20/node", map[string]any{"FEN": f, "Moves": []string{}})
 		}
+	}, nil)
+	// positions with very few legal replies: back-rank checks answered by interposition only
+	WalkFlat(c, corpus.BackRankFamily, func(n *Node) {
+		f := n.Ref.FEN(0, 1)
+		b := bridge.NewBoard(f, 0)
+		bm := bridge.NewBoard(mirrorPos(n.Ref).FEN(0, 1), 0)
+		c.Evaluations.Add(1)
+		if cls, msg := c20Oracle(ctx, b, bm, ref.NewGame(n.Ref, 0, 1), nil); msg != "" {
+			c.Violation(cc.sig("C20/"+cls, f), msg+" at "+f, "C20/node", map[string]any{"FEN": f, "Moves": []string{}})
+		}
+		c.Distinct(fmt.Sprint("backrank", len(n.Ref.Legal())))
 	}, nil)
 	c.Traces.Store(c.Evaluations.Load())
 	c.Finish()
